@@ -54,6 +54,19 @@ CHECKS = {
         design_ref='§7 C03',
         note=NOTE_COMMON + 'Member set read from the generated text; values compared metamorphically (slice vs whole workbook).',
         technique='TLA+ state machine + invariants/liveness (TLC), graph enumeration replay, trace validation'),
+    'C05': dict(
+        category='model_checking',
+        text=('The library\'s token sets are committed as TLA+ data and read twice: as a context-free grammar (Accept = the whole '
+              'token sequence is derived: the "supported grammar") and by a code-shaped first-match interpreter with the '
+              'control-construction flag and the AstBuilder step. TLC checks on every enumerated sequence that the code-shaped '
+              'parser ends in whole-or-parser-exception and that whole => Accept (pinned variant: failing census), and exports '
+              'every sequence (all soups up to a bound over 18 token classes, all single-token mutations of seed formulas, every '
+              'function keyword x 0..N arguments) with the verdict. Binding: each is concretised to text and run through the real '
+              'lexer/parser/translator; not Accept => the outcome must be the parser exception. Whitespace/separator spellings of '
+              'accepted formulas must agree; random damaged formulas are lexed by the real Lexer and judged by TLC (Trace_C05).'),
+        design_ref='§7 C05',
+        note=NOTE_COMMON + 'Token level: texts are built from canonical lexemes separated by blanks; the reference grammar is the committed transcription of the token sets (drift is reported, not alarmed).',
+        technique='TLA+ grammar model (CFG + first-match interpreter) enumerated by TLC, replayed; trace validation'),
 }
 
 NOT_APPLICABLE = {}
